@@ -134,6 +134,12 @@ pub fn alphabet(root_uid: bool) -> Vec<Op> {
         ops.push(Op::ChmodB(s(p), ChmodSel::Readonly, true, true));
         ops.push(Op::ChmodB(s(p), ChmodSel::Secure, false, true));
         ops.push(Op::Chmod(s(p), 0o1750));
+        // a special bit on top of the permissions a new entry gets anyway; executable for group/other but not the owner;
+        // writable for group but not the owner (is_exec / is_readonly speak about all three classes)
+        ops.push(Op::MkfileM(s(p), 0o1644));
+        ops.push(Op::MkdirM(s(p), 0o1755));
+        ops.push(Op::Chmod(s(p), 0o655));
+        ops.push(Op::Chmod(s(p), 0o464));
         if root_uid {
             ops.push(Op::Chown(s(p), 5, 6));
             ops.push(Op::ChownB(s(p), Some(7), None, false, false));
@@ -349,7 +355,7 @@ fn follow_up_queries() -> Vec<Op> {
     let mut q = vec![];
     for p in ["/a", "/a/a", "/a/ab", "/ab", "/ab/a", "/ab/ab", "/zz"] {
         let p = s(p);
-        q.extend([Op::Exists(p.clone()), Op::IsFile(p.clone()), Op::IsDir(p.clone()), Op::IsSymlink(p.clone()), Op::ReadAll(p.clone()), Op::ReadLines(p.clone()), Op::ReadlinkAbs(p.clone()), Op::Mode(p.clone())]);
+        q.extend([Op::Exists(p.clone()), Op::IsFile(p.clone()), Op::IsDir(p.clone()), Op::IsSymlink(p.clone()), Op::ReadAll(p.clone()), Op::ReadLines(p.clone()), Op::ReadlinkAbs(p.clone()), Op::Mode(p.clone()), Op::IsExec(p.clone()), Op::IsReadonly(p.clone())]);
     }
     q.push(Op::AllPaths(s("/")));
     q
